@@ -269,6 +269,15 @@ class _Spell(ast.NodeTransformer):
         # np.issubdtype(T, np.bool_) is np.issubdtype(T, bool): the builtin is converted to the numpy scalar type first
         if d in ("np.issubdtype", "numpy.issubdtype") and len(n.args) == 2 and _dotted(n.args[1]) in ("np.bool_", "numpy.bool_", "np.bool", "numpy.bool"):
             n.args[1] = ast.copy_location(ast.Name(id="bool", ctx=ast.Load()), n.args[1])
+        # zip(range(a, len(X) + a), X) is enumerate(X, a); zip(range(len(X)), X) is enumerate(X)
+        if isinstance(f, ast.Name) and f.id == "zip" and len(n.args) == 2 and not n.keywords and isinstance(n.args[0], ast.Call) and isinstance(n.args[0].func, ast.Name) \
+                and n.args[0].func.id == "range" and not n.args[0].keywords:
+            ra, X_ = n.args[0].args, n.args[1]
+            lenX = f"len({ast.unparse(X_)})"
+            if len(ra) == 1 and ast.unparse(ra[0]) == lenX:
+                return ast.copy_location(ast.Call(func=ast.Name(id="enumerate", ctx=ast.Load()), args=[X_], keywords=[]), n)
+            if len(ra) == 2 and isinstance(ra[0], ast.Constant) and isinstance(ra[0].value, int) and ast.unparse(ra[1]).replace(" ", "") in (f"{lenX}+{ra[0].value}".replace(" ", ""), f"{ra[0].value}+{lenX}".replace(" ", "")):
+                return ast.copy_location(ast.Call(func=ast.Name(id="enumerate", ctx=ast.Load()), args=[X_, ra[0]], keywords=[]), n)
         # typing.cast(T, x) -> x
         if d in ("cast", "typing.cast") and len(n.args) == 2 and not n.keywords:
             return n.args[1]
@@ -427,6 +436,32 @@ def _shape_enumerate_form(fn):
         lp.orelse = [_R().visit(b) for b in lp.orelse]
         lp.target = ast.copy_location(ast.Name(id=iv, ctx=ast.Store()), lp.target)
         lp.iter = ast.copy_location(ast.Call(func=ast.Name(id="range", ctx=ast.Load()), args=[ast.Call(func=ast.Name(id="len", ctx=ast.Load()), args=[copy.deepcopy(seq)], keywords=[])], keywords=[]), lp.iter)
+
+
+def _map_loop_form(fn):
+    """for x in map(F, X): BODY   ->   for x in X: BODY[x := F(x)]   (F a plain name, x read exactly once in BODY and never re-bound:
+    the call happens once per item, at the first and only use of the item)"""
+    for lp in ast.walk(fn):
+        if not (isinstance(lp, ast.For) and isinstance(lp.target, ast.Name) and isinstance(lp.iter, ast.Call) and isinstance(lp.iter.func, ast.Name) and lp.iter.func.id == "map"
+                and len(lp.iter.args) == 2 and not lp.iter.keywords and isinstance(lp.iter.args[0], (ast.Name, ast.Attribute)) and not lp.orelse):
+            continue
+        x = lp.target.id
+        loads = [n for b in lp.body for n in ast.walk(b) if isinstance(n, ast.Name) and n.id == x and isinstance(n.ctx, ast.Load)]
+        stores = [n for b in lp.body for n in ast.walk(b) if isinstance(n, ast.Name) and n.id == x and isinstance(n.ctx, (ast.Store, ast.Del))]
+        later = [n for n in ast.walk(fn) if isinstance(n, ast.Name) and n.id == x and getattr(n, "lineno", 0) > getattr(lp, "end_lineno", 10 ** 9)]
+        if len(loads) != 1 or stores or later:
+            continue
+        F = lp.iter.args[0]
+        target = loads[0]
+
+        class _R(ast.NodeTransformer):
+            def visit_Name(self, n):
+                if n is target:
+                    return ast.copy_location(ast.Call(func=copy.deepcopy(F), args=[ast.Name(id=x, ctx=ast.Load())], keywords=[]), n)
+                return n
+
+        lp.body = [_R().visit(b) for b in lp.body]
+        lp.iter = lp.iter.args[1]
 
 
 def _sentinel_test(test, var):
@@ -763,9 +798,63 @@ class _PlainLocals(ast.NodeTransformer):
         return n
 
 
+def _inline_iter_temps(tree):
+    """p = range(…) / p = list(G)   …   for … in zip(p, …) / enumerate(p, k):   ->   the sequence is written where it is iterated
+    (p bound once, read once, and that read is inside the iterable of a later `for`; iterating list(G) visits the items of G in order)"""
+    for fn in ast.walk(tree):
+        if not isinstance(fn, (ast.FunctionDef, ast.AsyncFunctionDef)):
+            continue
+        stores, loads = {}, {}
+        for n in ast.walk(fn):
+            if isinstance(n, ast.Name):
+                (stores if isinstance(n.ctx, (ast.Store, ast.Del)) else loads).setdefault(n.id, []).append(n)
+        for blk in _all_blocks(fn):
+            for st in list(blk):
+                if not (isinstance(st, ast.Assign) and len(st.targets) == 1 and isinstance(st.targets[0], ast.Name) and isinstance(st.value, ast.Call) and isinstance(st.value.func, ast.Name)
+                        and st.value.func.id in ("range", "list") and not st.value.keywords):
+                    continue
+                nm = st.targets[0].id
+                if len(stores.get(nm, [])) != 1 or len(loads.get(nm, [])) != 1:
+                    continue
+                use = loads[nm][0]
+                if st.value.func.id == "list" and not (len(st.value.args) == 1 and isinstance(st.value.args[0], ast.Call)):
+                    continue
+                host = None
+                for lp in ast.walk(fn):
+                    if isinstance(lp, ast.For) and any(x is use for x in ast.walk(lp.iter)) and getattr(lp, "lineno", 0) > getattr(st, "lineno", 0):
+                        host = lp
+                if host is None:
+                    continue
+                # names of the value must not be re-bound between the binding and the loop (single-assignment names only)
+                if any(len(stores.get(x.id, [])) > (1 if x.id in [a.arg for a in fn.args.args] else 1) for x in ast.walk(st.value) if isinstance(x, ast.Name) and x.id in stores and x.id != nm):
+                    continue
+                repl = st.value if st.value.func.id == "range" else st.value.args[0]
+
+                class _R(ast.NodeTransformer):
+                    def visit_Name(self, n):
+                        return copy.deepcopy(repl) if n is use else n
+
+                host.iter = _R().visit(host.iter)
+                blk.remove(st)
+                if not blk:
+                    blk.append(ast.Pass())
+
+
+def _all_blocks(fn):
+    out = []
+    for n in ast.walk(fn):
+        for attr in ("body", "orelse", "finalbody"):
+            b = getattr(n, attr, None)
+            if isinstance(b, list) and b and isinstance(b[0], ast.stmt):
+                out.append(b)
+    return out
+
+
 def prenormalize(tree: ast.Module) -> ast.Module:
     tree = propagate_module_constants(tree)
+    _inline_iter_temps(tree)
     tree = _Spell().visit(tree)
+    _inline_iter_temps(tree)
     _super_form(tree)
     _class_alias(tree)
     tree = _class_lookup_form(tree)
@@ -774,6 +863,7 @@ def prenormalize(tree: ast.Module) -> ast.Module:
             _with_form(fn.body)
             _for_form(fn.body)
             _shape_enumerate_form(fn)
+            _map_loop_form(fn)
             _while_form(fn.body)
             _continue_form(fn.body)
             _forelse_form(fn.body)
